@@ -17,3 +17,10 @@ Proof. repeat split; reflexivity. Qed.
    the onTimeout closure of SocketRemoteParties.Send contains no panic call): the repaired variant of Net/Queue.v *)
 Lemma repo_send_timeout_repaired : send_timeout_panics = false.
 Proof. reflexivity. Qed.
+
+(* The queue model has ONE writer per destination (QWrite operations of a destination are steps of a single sequential
+   process: that is what lets Net/Queue.v treat "take the head, write header, write payload" as one atomic step).  In
+   /repo this rests on startOnce: the writer goroutine is started at exactly one site, through a sync.Once of the
+   destination object (syntactic, read off the source by tools/gen_netconsts.py on every run). *)
+Lemma repo_single_writer : single_writer_once_guarded = true.
+Proof. reflexivity. Qed.
